@@ -162,6 +162,7 @@ class PoolRec:
         self.gac_done = False
         self.size_changed = False
         self.probe_mode = False
+        self.cb_cancel_raised = 0  # user callbacks that re-raised a CancelledError reaching them
         self.s_live_by_group = {}
         self.unlocked_after_lock = False
         self.gac_call_at = None
